@@ -579,7 +579,10 @@ pub fn gen_items(rng: &mut Rng, names: &[String], is_test_file: bool, o: &GenOpt
     let nt = if is_test_file { rng.range(1, o.max_tests.max(1)) } else { rng.below(2).min(o.max_tests) };
     for k in 0..nt {
         items.push(Item::Test(Tst {
-            name: if rng.chance(o.unicode_test_names_per_mille) { format!("test_{}{}", rng.pick(&["caf\u{e9}", "\u{65e5}\u{672c}", "\u{43f}\u{440}\u{43e}\u{432}\u{435}\u{440}\u{43a}\u{430}"]), k) } else { format!("test_{}", k) },
+            // pytest's default `python_functions = test` is a prefix: `def testLogin(...)` is a test as well
+            name: if rng.chance(70) {
+                format!("testCase{}", k)
+            } else if rng.chance(o.unicode_test_names_per_mille) { format!("test_{}{}", rng.pick(&["caf\u{e9}", "\u{65e5}\u{672c}", "\u{43f}\u{440}\u{43e}\u{432}\u{435}\u{440}\u{43a}\u{430}"]), k) } else { format!("test_{}", k) },
             params: subset(rng, names, 3),
             usefixtures: if o.marks && rng.chance(200) { subset(rng, names, 2) } else { vec![] },
             indirect: if o.marks && rng.chance(100) { subset(rng, names, 2) } else { vec![] },
